@@ -15,6 +15,8 @@ pub fn base_io(seed: u32, p: u16) -> u8 {
 }
 
 pub struct RecBus {
+    /// a small ROM mirrored through the whole address space (writes have no effect); None = hashed memory
+    pub rom: Option<Vec<u8>>,
     pub seed: u32,
     pub mem: BTreeMap<u16, u8>,
     pub io: BTreeMap<u16, u8>,
@@ -27,6 +29,7 @@ pub struct RecBus {
 impl RecBus {
     pub fn new(seed: u32) -> Self {
         RecBus {
+            rom: None,
             seed,
             mem: BTreeMap::new(),
             io: BTreeMap::new(),
@@ -37,13 +40,20 @@ impl RecBus {
         }
     }
     pub fn peek(&self, a: u16) -> u8 {
+        if let Some(rom) = &self.rom {
+            return rom[a as usize % rom.len()];
+        }
         *self.mem.get(&a).unwrap_or(&base_mem(self.seed, a))
     }
     pub fn env(&self) -> Value {
         let poke: Vec<Value> = self.mem.iter().map(|(a, v)| json!([a, v])).collect();
         let io: Vec<Value> = self.io.iter().map(|(a, v)| json!([a, v])).collect();
-        json!({"seed": self.seed, "poke": poke, "io": io, "int": self.int, "nmi": self.nmi,
-               "busbyte": self.busbyte})
+        let mut e = json!({"seed": self.seed, "poke": poke, "io": io, "int": self.int, "nmi": self.nmi,
+               "busbyte": self.busbyte});
+        if let Some(rom) = &self.rom {
+            e["rom"] = json!(rom);
+        }
+        e
     }
 }
 
@@ -55,7 +65,9 @@ impl Z80Bus for RecBus {
     }
     fn write_internal(&mut self, addr: u16, data: u8) {
         self.log.push(json!(["wr", addr, data]));
-        self.mem.insert(addr, data);
+        if self.rom.is_none() {
+            self.mem.insert(addr, data);
+        }
     }
     fn wait_mreq(&mut self, addr: u16, clk: usize) {
         self.log.push(json!(["mreq", addr, clk]));
@@ -325,8 +337,35 @@ fn matrix(out: &mut Out, r: &mut Rng, chain: u64) {
     }
 }
 
+/// spec -> impl: behaviours generated by TLC (GenZ80MC) replayed on the real CPU
+fn replay_mc(out: &mut Out, path: &str) {
+    let text = std::fs::read_to_string(path).expect("replay file");
+    for (k, line) in text.lines().enumerate() {
+        let v: Value = serde_json::from_str(line).unwrap();
+        let rom: Vec<u8> = v["rom"].as_array().unwrap().iter().map(|x| x.as_u64().unwrap() as u8).collect();
+        let mut cpu = Z80::default();
+        let mut bus = RecBus::new(0);
+        bus.rom = Some(rom);
+        for (i, st) in v["hist"].as_array().unwrap().iter().enumerate() {
+            bus.int = st[0].as_u64().unwrap() == 1;
+            bus.nmi = st[1].as_u64().unwrap() == 1;
+            bus.busbyte = st[2].as_u64().unwrap() as u8;
+            record_step(&mut cpu, &mut bus, out, &format!("R{k}/{i}"));
+        }
+        let fin = cpu_state(&mut cpu);
+        out.ev(json!({"ev":"mcfinal","tag":format!("R{k}"),"want":v["final"],"got":fin}));
+    }
+}
+
 pub fn run(args: &Args) {
     let mut out = Out::create(&args.str("out", "-"));
+    let rp = args.str("replaymc", "");
+    if !rp.is_empty() {
+        replay_mc(&mut out, &rp);
+        let n = out.finish();
+        eprintln!("z80 replay: {n} events");
+        return;
+    }
     let seed = args.num("seed", 1);
     let per = args.num("per", 4); // cases per encoding
     let chain = args.num("chain", 3); // further calls after the first one
